@@ -66,3 +66,14 @@ Theorem c06_edge_order_irrelevant : forall (E E' : list edge) (ml r r' : list bo
   propagate_judgements E ml = Some r -> propagate_judgements E' ml = Some r' -> r = r'.
 Proof. exact propagate_judgements_edge_order. Qed.
 Print Assumptions c06_edge_order_irrelevant.
+
+(* non-vacuity: a chain 2 -> 1 -> 0 below a non-linear node 0, edges listed in another order and one of them twice *)
+Example c06_edge_order_example :
+  let E := [(1, 0); (2, 1)]%nat in let E' := [(2, 1); (1, 0); (2, 1)]%nat in let ml := [false; true; true] in
+  (forall a b, In (a, b) E <-> In (a, b) E') /\ (forall a b, In (a, b) E -> (b < List.length ml)%nat)
+  /\ propagate_judgements E ml = Some [false; false; false] /\ propagate_judgements E' ml = Some [false; false; false].
+Proof.
+  cbn zeta. split; [|split; [|split; vm_compute; reflexivity]].
+  - intros a b. cbn [In]. split; intros H; repeat (destruct H as [H|H]; [inversion H; subst; tauto|]); destruct H.
+  - intros a b. cbn [In List.length]. intros H. repeat (destruct H as [H|H]; [inversion H; subst; repeat constructor|]); destruct H.
+Qed.
